@@ -910,6 +910,7 @@ def check_mapping(rnd, b):
         for x in tb:
             toff.append(toff[-1] + len(blocks[x]))
         expected = {}
+        fname, tname = {}, {}
         last_from = last_to = None
         lines = []
         for k, x in enumerate(fb):
@@ -930,6 +931,8 @@ def check_mapping(rnd, b):
                     last_from, last_to = k, tk
                     lines.append('%s %s%s' % (fspec, tspec, '' if w is None else ' %d' % w))
                     expected.setdefault(foff[k] + pos, {})[toff[tk] + tpos] = 1 if w is None else w
+                    fname[foff[k] + pos] = '%s:%s' % (fid[k], atom)
+                    tname[toff[tk] + tpos] = '%s:%s' % (tid[tk], tatom)
         extra_expect = {}
         for j, e_ in enumerate(extra):
             tk = rnd.randrange(nto)
@@ -942,9 +945,19 @@ def check_mapping(rnd, b):
             lines.append('%s:%s %s:%s' % (fid[0], atom, tid[0], tatom))
             expected[0] = {0: 1}
         out += lines
+        refs = {}
+        if rnd.random() < 0.35:
+            # reference atoms: "<atom to> <atom from>", the from atom must be one that maps onto that to atom
+            out.append('[ reference atoms ]')
+            for t_ in rnd.sample(sorted(tname), min(len(tname), rnd.randint(1, 2))):
+                cands = [f_ for f_ in sorted(fname) if t_ in expected.get(f_, {})]
+                if cands:
+                    f_ = rnd.choice(cands)
+                    out.append('%s %s' % (tname[t_], fname[f_]))
+                    refs[t_] = f_
         resids_ = {foff[k] + pos: k + 1 for k, x in enumerate(fb) for pos in range(len(blocks[x]))}
         resids_.update({foff[-1] + j: e_['k'] + 1 for j, e_ in enumerate(extra)})
-        specs.append({'names': tuple(fb), 'mapping': expected, 'n_to': toff[-1], 'from_resids': resids_, 'extra': extra_expect})
+        specs.append({'names': tuple(fb), 'mapping': expected, 'n_to': toff[-1], 'from_resids': resids_, 'extra': extra_expect, 'refs': refs})
     text = '\n'.join(out) + '\n'
     b.hits += 1
     try:
@@ -975,6 +988,8 @@ def check_mapping(rnd, b):
             if got_ != {k_: v_ for k_, v_ in want_.items() if k_ != 'atomname'} or ('atomname' in want_ and d_.get('atomname') != want_['atomname']):
                 return ('mapping/from-node-attributes', {'names': sp['names'], 'node': idx, 'observed': {k_: v_ for k_, v_ in d_.items() if k_ != 'graph'},
                                                          'declared': want_, 'text': text}), text
+        if dict(m.references) != sp['refs']:
+            return ('mapping/reference-atoms', {'names': sp['names'], 'observed': dict(m.references), 'declared': sp['refs'], 'text': text}), text
         if tuple(m.names) != sp['names'] or m.ff_from != 'srcff' or m.ff_to != 'dstff':
             return ('mapping/header', {'names': m.names, 'ff_from': str(m.ff_from), 'ff_to': str(m.ff_to)}), text
     return None, text
